@@ -315,20 +315,116 @@ fn layered_strategy(ctx: &Ctx) -> BoxedStrategy<super::c06::Case> {
         .boxed()
 }
 
+
+// ---------------------------------------------------------------------------
+// clips pushed while a layer is open that was itself pushed under a clip popped since
+
+#[derive(Clone, Debug, Serialize, Deserialize)]
+pub struct UnderLayerCase {
+    pub w: i32,
+    pub h: i32,
+    pub init: Vec<u32>,
+    /// the clip rectangle the (empty, opaque SrcOver) layer is pushed under; popped while the layer is open
+    pub rect: (i32, i32, i32, i32),
+    /// pushed while that layer is open, still in force after pop_layer
+    pub clips: Vec<Op>,
+    pub draw: Op,
+}
+
+/// The clip stack does not belong to the layer stack: clips pushed while a layer is open are the clips in force
+/// afterwards, over the whole surface, however small the layer was.
+pub fn check_under_layer(c: &UnderLayerCase) -> CheckResult {
+    let mut o = Outcome::new();
+    o.fp = fp_of(c);
+    let (w, h) = (c.w, c.h);
+    let mut dt = new_target(w, h, &c.init);
+    dt.push_clip_rect(irect(c.rect.0, c.rect.1, c.rect.2, c.rect.3));
+    dt.push_layer(1.0);
+    dt.pop_clip();
+    let mut ctx = ClipCtx::default();
+    let mut exact = true;
+    for cl in &c.clips {
+        apply(&mut dt, cl);
+        if !ctx.push(cl, &IDENT, w, h) {
+            ctx.entries.push(ClipEntry::Path(vec![vec![0, 255]; (w * h) as usize]));
+            exact = false;
+        }
+    }
+    dt.pop_layer();
+    if dt.get_data() != &c.init[..] {
+        return Err("popping an empty opaque SrcOver layer changed the surface".into());
+    }
+    let before = dt.get_data().to_vec();
+    apply(&mut dt, &c.draw);
+    let after = dt.get_data().to_vec();
+    for i in 0..before.len() {
+        let (x, y) = (i as i32 % w, i as i32 / w);
+        if !ctx.in_rects(x, y) && after[i] != before[i] {
+            return Err(format!("{} changed pixel ({},{}) from {} to {} although it lies outside a clip rectangle pushed while the layer was open", c.draw.kind(), x, y, hex(before[i]), hex(after[i])));
+        }
+    }
+    let mut outside_layer_judged = 0;
+    if exact {
+        if let Some(m) = model_draw(&c.draw, &IDENT, w, h) {
+            let cs = ctx.combined(w, h);
+            let tol = TOL + ctx.n_paths() as f64;
+            for i in 0..before.len() {
+                let (x, y) = (i as i32 % w, i as i32 / w);
+                if let Err(e) = judge_pixel(m.mode, m.s_img[i], before[i], &m.ms[i], &cs[i], after[i], tol) {
+                    return Err(format!(
+                        "layer pushed under clip rect {:?} (popped since), {} clips pushed while it was open, layer popped, then {}: pixel ({},{}): {}",
+                        c.rect,
+                        c.clips.len(),
+                        c.draw.kind(),
+                        x,
+                        y,
+                        e
+                    ));
+                }
+                let in_layer = x >= c.rect.0 && x < c.rect.2 && y >= c.rect.1 && y < c.rect.3;
+                if !in_layer && m.ms[i].iter().any(|b| *b > 0) {
+                    outside_layer_judged += 1;
+                }
+            }
+            o.judged += before.len() as u64;
+        }
+    }
+    o.nontrivial = outside_layer_judged > 0 && ctx.n_paths() >= 1;
+    o.class_if(ctx.n_paths() >= 2, "two-clip-paths-pushed-inside-the-layer");
+    o.class_if(outside_layer_judged > 0, "draw-judged-outside-the-old-layer");
+    Ok(o)
+}
+
+fn under_layer_strategy(ctx: &Ctx) -> BoxedStrategy<UnderLayerCase> {
+    let ctx = ctx.clone();
+    (4i32..=12, 4i32..=12)
+        .prop_flat_map(move |(w, h)| {
+            let d = Domain::exact(w, h);
+            let rect = (0..w - 1, 0..h - 1).prop_flat_map(move |(x0, y0)| (Just(x0), Just(y0), x0..=(x0 + 3).min(w), y0..=(y0 + 3).min(h)));
+            let path_clip = grid_poly(w, h, false).prop_map(Op::PushClipPath);
+            let clips = prop::collection::vec(prop_oneof![3 => path_clip.boxed(), 1 => clip_push(&d)], 2..=3);
+            (Just((w, h)), init_pixels(w, h), rect, clips, draw_op(&ctx, &d))
+        })
+        .prop_map(|((w, h), init, rect, clips, draw)| UnderLayerCase { w, h, init, rect, clips, draw })
+        .boxed()
+}
+
 pub fn property(ctx: &Ctx) -> Property {
     let (c1, c2, c3) = (ctx.clone(), ctx.clone(), ctx.clone());
     let c4 = ctx.clone();
+    let c5 = ctx.clone();
     Property {
         id: "C05",
-        rule: "part stack: nested histories (depth <= 5) of push_clip_rect (inside, overlapping, disjoint, inverted, off-surface) and push_clip of quarter-grid polygons (exact coverage from the 4x4 model), quarter-pixel transform changes between pushes, with fill / fill_rect / mask / clear / draw_image_at draws (28 modes, all sources) after every change; after each draw every pixel is judged: outside any pushed rectangle unchanged; rect-only stacks bit-identical to the unclipped draw inside the intersection; with paths the compositor formula with clip coverage = product of all pushed path coverages (exact at 0 and full, +-(3+n)/255 otherwise). part order: the same 2-4 clips (clip rects and clip paths made of pixel-aligned rectangles, coverages exactly 0/255) pushed in two orders give bit-identical pixels for any draw. part noop: inserting balanced draw-free push..pop blocks changes no pixel. part layers: a layer group (any opacity/blend, non-SrcOver draws inside) pushed under 2-3 clips of both kinds in every order, incl. rectangles narrower than the surface with a non-zero origin, judged by the isolated-group reference of C06. Non-trivial: a draw under live clips of both kinds, a draw after a pop, or an empty intersection of rectangles; distinct by hash of the case.",
+        rule: "part stack: nested histories (depth <= 5) of push_clip_rect (inside, overlapping, disjoint, inverted, off-surface) and push_clip of quarter-grid polygons (exact coverage from the 4x4 model), quarter-pixel transform changes between pushes, with fill / fill_rect / mask / clear / draw_image_at draws (28 modes, all sources) after every change; after each draw every pixel is judged: outside any pushed rectangle unchanged; rect-only stacks bit-identical to the unclipped draw inside the intersection; with paths the compositor formula with clip coverage = product of all pushed path coverages (exact at 0 and full, +-(3+n)/255 otherwise). part order: the same 2-4 clips (clip rects and clip paths made of pixel-aligned rectangles, coverages exactly 0/255) pushed in two orders give bit-identical pixels for any draw. part noop: inserting balanced draw-free push..pop blocks changes no pixel. part layers: a layer group (any opacity/blend, non-SrcOver draws inside) pushed under 2-3 clips of both kinds in every order, incl. rectangles narrower than the surface with a non-zero origin, judged by the isolated-group reference of C06. Non-trivial: a draw under live clips of both kinds, a draw after a pop, or an empty intersection of rectangles; distinct by hash of the case. part under-layer: a layer pushed under a small clip rectangle that is popped while the layer is open; 2-3 clips (mostly quarter-grid paths) pushed while it is open; the layer popped (empty, opaque: no change); then one draw, judged over the whole surface with exactly those clips by the same formula (the clip stack does not belong to the layer).",
         assumptions: vec!["clip paths are quarter-grid polygons under quarter-pixel translations so that their coverage is known exactly (curved clip paths: C08)", "part layers reuses C06's oracle (isolated group on a separate surface) for clips interleaved with layers"],
         parts: vec![
             part("stack", 100_000, 1_500_000, move || strategy(&c1), check),
             part("order", 40_000, 600_000, move || order_strategy(&c2), check_order),
             part("noop", 30_000, 500_000, move || noop_strategy(&c3), check_noop),
             part("layers", 30_000, 500_000, move || layered_strategy(&c4), super::c06::check),
+            part("under-layer", 20_000, 400_000, move || under_layer_strategy(&c5), check_under_layer),
         ],
-        min_class_fraction: vec![("stack", "rect-after-path", 0.05), ("stack", "path-after-rect", 0.05), ("stack", "depth>=3", 0.05), ("stack", "draw-after-pop", 0.2), ("stack", "judged:path-clip-formula", 0.2), ("order", "reordered", 0.4)],
+        min_class_fraction: vec![("stack", "rect-after-path", 0.05), ("stack", "path-after-rect", 0.05), ("stack", "depth>=3", 0.05), ("stack", "draw-after-pop", 0.2), ("stack", "judged:path-clip-formula", 0.2), ("order", "reordered", 0.4), ("under-layer", "two-clip-paths-pushed-inside-the-layer", 0.3), ("under-layer", "draw-judged-outside-the-old-layer", 0.3)],
         panic_is_violation: false,
     }
 }
